@@ -180,12 +180,20 @@ def c09(tier, seed):
 
 @prop("C10")
 def c10(tier, seed):
-    return _simple_api("C10", tier, seed, "blocks_compared",
-                       "SP 800-38A F.1-F.5 vectors; random keys/IVs with 0..300 blocks; IVs ending in 1..16 0xFF bytes, IV = 2^128-j, "
-                       "low counter bytes about to wrap; all-zero plaintext; long streams past 2^16 (thorough: 2^24) blocks; invalid "
-                       "type numbers 5..255 must give NULL; every block compared in lock-step with an EVP context and decrypted back "
-                       "by the matching decryptor object; distinct = (mode, family, length, carry) classes", 50000,
-                       variants=[(4, 4)], san="asan", stall_s=120.0)
+    chk = Check("C10", tier, seed)
+    chk.assumptions = ASSUME_API
+    C, D, S = {}, {}, []
+    # ASan+UBSan build, and an optimised build without sanitizers in which blocks at unaligned addresses are also fed
+    for san in ("asan", "fast"):
+        c, d, s = apiprops.run_api(chk, "C10", [(4, 4)], san=san, stall_s=120.0)
+        _acc(C, c); _acc(D, d); S += s[:3]
+    extra = dict(counters=C, distinct_by_kind=D, builds=["asan+ubsan", "fast -O2 (adds unaligned block addresses)"])
+    return chk.finish(C.get("blocks_compared", 0), D.get("class", 0),
+                      "SP 800-38A F.1-F.5 vectors; random keys/IVs with 0..300 blocks; IVs ending in 1..16 0xFF bytes, IV = 2^128-j, "
+                      "low counter bytes about to wrap; all-zero plaintext; long streams past 2^16 (thorough: 2^24) blocks; blocks at "
+                      "every address offset 1..15 (non-sanitizer build); invalid type numbers 5..255 must give NULL; every block "
+                      "compared in lock-step with an EVP context and decrypted back by the matching decryptor object; distinct = "
+                      "(mode, family, length, carry) classes", S, extra, min_evaluations=50000)
 
 
 @prop("C13")
